@@ -47,6 +47,7 @@ fn main() {
         "C11" => drive::<vcore::c11::C11>(&args),
         "C16" => drive::<vcore::c16::C16>(&args),
         "C17" => drive::<vcore::c17::C17>(&args),
+        "C19" => drive::<vcore::c19::C19>(&args),
         "C15" => drive::<vcore::c15::C15>(&args),
         _ => {
             eprintln!("unknown property id {id}");
